@@ -496,9 +496,21 @@ def cal_angle_from_particle(
                     part_data[i]["aligned_angle"] = ang
     ret = data_strip(decay_data, ["r_matrix", "b_matrix", "x", "z"])
     if only_left_angle:
+        # chains of one topology share these angles and may list the daughters
+        # in the other order (A->R+D and A->D+R'): keep the angles of a second
+        # daughter that is the first daughter of some chain
+        read_first = set()
+        if using_topology:
+            for chain_map in decay_group.get_chains_map():
+                for name_map in chain_map.values():
+                    inv_map = {v: k for k, v in name_map.items()}
+                    for k, v in name_map.items():
+                        if isinstance(v, BaseDecay):
+                            read_first.add((k, inv_map[v.outs[0]]))
         for i in ret:
             for j in ret[i]:
-                del ret[i][j][j.outs[1]]["ang"]
+                if (j, j.outs[1]) not in read_first:
+                    del ret[i][j][j.outs[1]]["ang"]
     return ret
 
 
